@@ -213,6 +213,7 @@ nni_aio_stop(nni_aio *aio)
 			fn(aio, arg, NNG_ESTOPPED);
 		}
 
+		NNI_VERIF_PT(NNI_VP_AIO_STOP_BEFORE_WAIT);
 		nni_aio_wait(aio);
 	}
 }
@@ -335,6 +336,17 @@ nni_aio_busy(nni_aio *aio)
 void
 nni_aio_reset(nni_aio *aio)
 {
+#ifdef NNG_VERIF
+	if (aio->a_init && aio->a_expire_q != NULL) {
+		nni_mtx_lock(&aio->a_expire_q->eq_mtx);
+		if (aio->a_v_active) {
+			nni_verif_fail("C02",
+			    "reset-while-active aio=%p", (void *) aio);
+		}
+		aio->a_v_done = 0;
+		nni_mtx_unlock(&aio->a_expire_q->eq_mtx);
+	}
+#endif
 	aio->a_result           = NNG_OK;
 	aio->a_count            = 0;
 	aio->a_abort            = false;
@@ -384,7 +396,14 @@ nni_aio_start(nni_aio *aio, nni_aio_cancel_fn cancel, void *data)
 	// cases and doing this here avoids nesting the locks.
 	nni_task_prep(&aio->a_task);
 
+	NNI_VERIF_PT(NNI_VP_AIO_START);
 	nni_mtx_lock(&eq->eq_mtx);
+#ifdef NNG_VERIF
+	if (aio->a_v_active) {
+		nni_verif_fail(
+		    "C02", "start-while-active aio=%p", (void *) aio);
+	}
+#endif
 	NNI_ASSERT(!aio->a_stopped);
 	if (aio->a_stop || eq->eq_stop) {
 		aio->a_stop      = true;
@@ -393,7 +412,11 @@ nni_aio_start(nni_aio *aio, nni_aio_cancel_fn cancel, void *data)
 		aio->a_count     = 0;
 		aio->a_result    = NNG_ESTOPPED;
 		aio->a_stopped   = true;
+#ifdef NNG_VERIF
+		aio->a_v_done++;
+#endif
 		nni_mtx_unlock(&eq->eq_mtx);
+		NNI_VERIF_EV(NNI_VE_AIO_REFUSED, aio, NNG_ESTOPPED, 0);
 		nni_task_dispatch(&aio->a_task);
 		return (false);
 	}
@@ -403,7 +426,11 @@ nni_aio_start(nni_aio *aio, nni_aio_cancel_fn cancel, void *data)
 		aio->a_expire_ok = false;
 		aio->a_count     = 0;
 		NNI_ASSERT(aio->a_result != NNG_OK);
+#ifdef NNG_VERIF
+		aio->a_v_done++;
+#endif
 		nni_mtx_unlock(&eq->eq_mtx);
+		NNI_VERIF_EV(NNI_VE_AIO_REFUSED, aio, aio->a_result, 0);
 		nni_task_dispatch(&aio->a_task);
 		return (false);
 	}
@@ -413,7 +440,11 @@ nni_aio_start(nni_aio *aio, nni_aio_cancel_fn cancel, void *data)
 		aio->a_result    = aio->a_expire_ok ? NNG_OK : NNG_ETIMEDOUT;
 		aio->a_expire_ok = false;
 		aio->a_count     = 0;
+#ifdef NNG_VERIF
+		aio->a_v_done++;
+#endif
 		nni_mtx_unlock(&eq->eq_mtx);
+		NNI_VERIF_EV(NNI_VE_AIO_REFUSED, aio, aio->a_result, 0);
 		nni_task_dispatch(&aio->a_task);
 		return (false);
 	}
@@ -427,7 +458,12 @@ nni_aio_start(nni_aio *aio, nni_aio_cancel_fn cancel, void *data)
 	if ((aio->a_expire != NNI_TIME_NEVER) && (cancel != NULL)) {
 		nni_aio_expire_add(aio);
 	}
+#ifdef NNG_VERIF
+	aio->a_v_active = true;
+	aio->a_v_done   = 0;
+#endif
 	nni_mtx_unlock(&eq->eq_mtx);
+	NNI_VERIF_EV(NNI_VE_AIO_BEGIN, aio, 0, 0);
 	return (true);
 }
 
@@ -454,6 +490,7 @@ nni_aio_abort(nni_aio *aio, nng_err rv)
 			aio->a_result = rv;
 		}
 		nni_mtx_unlock(&eq->eq_mtx);
+		NNI_VERIF_PT(NNI_VP_AIO_ABORT_UNLOCKED);
 
 		// Stop any I/O at the provider level.
 		if (fn != NULL) {
@@ -487,7 +524,17 @@ nni_aio_finish_impl(
 	aio->a_use_expire       = false;
 	skipped_cb              = aio->a_skipped_callback;
 	aio->a_skipped_callback = NULL;
+#ifdef NNG_VERIF
+	aio->a_v_active = false;
+	if (++aio->a_v_done > 1) {
+		nni_verif_fail("C02",
+		    "second-completion aio=%p result=%d done=%u",
+		    (void *) aio, (int) rv, aio->a_v_done);
+	}
+#endif
 	nni_mtx_unlock(&eq->eq_mtx);
+	NNI_VERIF_EV(NNI_VE_AIO_FINISH, aio, rv, 0);
+	NNI_VERIF_PT(NNI_VP_AIO_FINISH_UNLOCKED);
 
 	if (skipped_cb != NULL) {
 		*skipped_cb = true;
@@ -700,13 +747,24 @@ nni_aio_expire_loop(void *arg)
 			// For the special case of sleeping, we don't need to
 			// drop the lock and call the cancel function, we are
 			// already doing it right here!
+			NNI_VERIF_EV(NNI_VE_AIO_EXPIRE, aio, rv, 0);
 			if (aio->a_sleep) {
 				aio->a_result = rv;
 				aio->a_sleep  = false;
+#ifdef NNG_VERIF
+				aio->a_v_active = false;
+				if (++aio->a_v_done > 1) {
+					nni_verif_fail("C02",
+					    "second-completion(sleep) aio=%p",
+					    (void *) aio);
+				}
+#endif
 				nni_task_dispatch(&aio->a_task);
 			} else if (cancel_fn != NULL) {
 				nni_mtx_unlock(mtx);
+				NNI_VERIF_PT(NNI_VP_AIO_EXPIRE_BEFORE_CANCEL);
 				cancel_fn(aio, cancel_arg, rv);
+				NNI_VERIF_PT(NNI_VP_AIO_EXPIRE_BETWEEN);
 				nni_mtx_lock(mtx);
 			}
 			aio->a_expiring = false;
